@@ -30,7 +30,7 @@ CLAIMS['C15'] = {
 
 CLAIMS['C02'] = {
     'text': 'Rule contract RC on every rule brought under contract: RC-REWIND (local failure with rewinding required leaves pointer, byte, line and column exactly as at entry), RC-MONO (the cursor never moves backwards, on success, failure and exception), RC-LOOK (look-ahead rules never move it). Leaves (one-argument match: all unit rules, string, istring, bytes, eof, eol x5, eolf, bof, bol, everything, integer rules) are proved on their real bodies over symbolic windows; combinators (seq, sor, star, plus, opt, at, not_at, until x2, rep, rep_opt, rep_min_max, if_then_else, strict, star_strict, must, if_must, raise, try_catch_return_false, try_catch_raise_nested) and the match() dispatcher (bool actions veto with the cursor restored) against oracle sub-rules that may fail after consuming when rewinding is optional.',
-    'note': 'Not yet under contract (listed, not silently skipped): rematch, raw_string, http chunk rules, rep_one_min_max, if_apply, state/action/control switches, buffer_input. See DESIGN.md appendix A.',
+    'note': 'Not under contract (listed, not silently skipped): http chunk rules, list/pad aliases (compositions), discard, buffer_input beyond require(). See DESIGN.md section 11.3.',
     'design': 'DESIGN.md section 5 C02',
 }
 CLAIMS['C03'] = {
@@ -45,7 +45,7 @@ CLAIMS['C04'] = {
 }
 CLAIMS['C05'] = {
     'text': 'must, if_must (both defaults), raise with the real normal<Rule>::raise: a parse_error is raised exactly when the must-rule fails locally, by the raise() of exactly that rule, with the position of the cursor where the attempt stopped (>= where it began); every combinator under contract passes a sub-rule exception on unchanged (same object identity and type); try_catch_return_false converts exactly the named exception types (static subtype table) into a local failure, restoring the cursor when rewinding is required, and try_catch_raise_nested raises a new parse_error for its rule at the start position of the attempt with the original as nested exception.',
-    'note': 'what() text and the parse_error/position constructors are std::string code (trusted throw stub); must_if<> custom messages not under contract.',
+    'note': 'what() text and the parse_error/position constructors are std::string code (trusted throw stub); must_if<Errors>::control is proved as the control of the real match() for four error tables (message / raise_on_failure combinations).',
     'design': 'DESIGN.md section 5 C05',
 }
 CLAIMS['C08'] = {
@@ -55,7 +55,7 @@ CLAIMS['C08'] = {
 }
 CLAIMS['C09'] = {
     'text': 'Hand-written convenience rules are proved against K-contracts = the PEG evaluation of their documented expansion: until<C>, until<C,R>, rep<N>, rep_opt<N>, rep_min_max<Min,Max>, if_then_else, strict, star_strict, if_must/opt_must, must (ghost automata over oracle sub-rules, loops closed by loop contracts), and the leaves string, bytes, eolf, eof, bof, bol, everything, success, failure against closed-form byte-level specifications.',
-    'note': 'Alias-defined rules (list*, pad*, rep_min, rep_max, minus, star_must, two/three/forty_two, keyword, identifier, shebang, separated_seq, rep_string, if_then) are definitional compositions of rules under contract: not re-proved; rematch and rep_one_min_max not yet under contract; K-contracts are hand transcriptions of doc/Rule-Reference.md.',
+    'note': 'Alias-defined rules (list*, pad*, rep_min, rep_max, minus, star_must, two/three/forty_two, keyword, identifier, shebang, separated_seq, rep_string, if_then) are definitional compositions of rules under contract: not re-proved; rematch (1-3 rules) and contrib rep_one_min_max are under contract too; K-contracts are hand transcriptions of doc/Rule-Reference.md.',
     'design': 'DESIGN.md section 5 C09',
 }
 
